@@ -12,13 +12,39 @@ NOTE = ("Trusted: Coq 8.16.1 kernel (+vm_compute), extraction with ExtrOcamlBasi
 
 CHECKS = {
     'C01': dict(
-        text="Coq theorems about the Gallina model of the markup parser: for ALL flat statements (any number of elements, any "
-             "mix of > + ^ runs) the preorder depth list of the parsed tree equals the depth-counter denotation of the operators "
-             "(parser spine invariant), and the implicit-name decision rule proved over the table regenerated from the source. "
-             "_partial: groups, repeater unrolling and formatter tag events are covered by the whole-pipeline model/implementation "
-             "correspondence and by an independent denotation oracle on expand() output, not by a theorem yet.",
-        technique="Coq proof by induction over statements with a parser-spine invariant + generated ELEMENT_MAP table + whole-pipeline model/implementation correspondence and denotation oracle",
+        text="Coq theorems about the Gallina models of tokenizer, parser and converter: (string level) for EVERY text of letter names "
+             "separated by > + and runs of ^, tokenize+parse yields a tree whose preorder (depth, name) list is the denotation of the "
+             "operators; (token level) the same for all flat statements and for statements with groups ( ... )*N nested to any depth "
+             "(mutual induction); convert_shape: the unrolled forest has the denoted depth list and every written element times the "
+             "repeat counts around it; implicit-name decision rule over the table regenerated from the source. _partial: the "
+             "formatter's tag events and the composition into one expand theorem are covered by the whole-pipeline "
+             "model/implementation correspondence and by an independent denotation oracle on expand() output.",
+        technique="Coq proof by induction over statements/units with a parser-spine invariant, tokenizer step lemmas, converter unrolling spec + generated ELEMENT_MAP table + whole-pipeline model/implementation correspondence and denotation oracle",
         ref="DESIGN.md §5 C01"),
+    'C02': dict(
+        text="Coq theorems for all token trees (without $# / implicit *): convert equals a pure unrolling spec with a budget "
+             "(C02_limit_full, closed form of maxRepeat), exactly N consecutive copies indexed in order, counters of the nearest "
+             "enclosing repeated unit, numbering value incl. reverse-with-base, zero padding width, tokenization of every $..$@-M form, "
+             "budget step/exhausted/enough lemmas. Independent oracle computes the expected forest from the abbreviation AST and "
+             "compares with a tag parse of expand() output; extracted spec and model compared with the implementation.",
+        technique="Coq proof by structural induction over token trees (converter vs unrolling spec with budget) + numbering arithmetic lemmas + model/implementation correspondence and AST oracle",
+        ref="DESIGN.md §5 C02"),
+    'C04': dict(
+        text="Coq theorems: text_literal for ALL brace-balanced payloads (tokenize+parse+convert of name{T} gives [unescape T]), "
+             "placeholder totality, group brackets, wrap_plain for all trees and texts, wrap text on leaves and (partial: state-purity "
+             "assumption, no nested repeaters) implicit-repeater wrap, text reaches the stream verbatim split only at CR/LF/CRLF, "
+             "children after text. Attribute-position compositions are partial (correspondence + oracle). Independent oracle over the "
+             "whole punctuation alphabet and wrap-line lists.",
+        technique="Coq proof by induction over the payload (tokenizer literal scanner with brace depth) and over converted forests + model/implementation correspondence and payload oracle",
+        ref="DESIGN.md §5 C04"),
+    'C07': dict(
+        text="Coq theorems for the markup model: for ALL abbreviations and ALL configurations with well-formed snippet tables expand_markup "
+             "returns Ok or a Scanner/Token parse error with 0 <= pos <= length, never Internal, never OutOfFuel (tokenize_safe, "
+             "parser_safe for all token lists, convert_safe, resolve_safe with tight fuel bound, complete sweep of the regenerated "
+             "built-in tables). Stylesheet half, BEM, lorem text and CPython's recursion limit are implementation-oracle only "
+             "(exhaustive short strings, random and mutated abbreviations, random option sets); two listed recursion-limit findings.",
+        technique="Coq proof stage-wise (tokenizer, parser over all token lists, converter, snippet resolution with fuel bound, composition) + complete vm_compute sweep of generated snippet tables + exhaustive short-string outcome-class correspondence",
+        ref="DESIGN.md §5 C07"),
     'C09': dict(
         text="Coq theorems: match/balanced_outward/balanced_inward as folds over scanner events return the innermost element, the "
              "enclosing chain and the first-child chain for every well-nested forest (unbounded), attribute ranges are exact; "
@@ -28,9 +54,11 @@ CHECKS = {
         ref="DESIGN.md §5 C09"),
     'C10': dict(
         text="Coq theorems: CSS match/balanced_outward/balanced_inward over scanner events equal innermost rule/declaration, chain and "
-             "first-child chain for all well-formed rule trees with ;-terminated declarations; events of trees are ordered. Scanner "
-             "level tied by correspondence on generated stylesheets with ground truth at every position. One known finding "
-             "(delimiters inside parentheses).",
+             "first-child chain for all well-formed rule trees with ;-terminated declarations (level A); css_scan_render: for ALL sheets of a "
+             "text grammar (nested rules, pseudo-selectors, at-rules with parenthesised conditions, strings, comments, SCSS variables, "
+             "custom properties, arbitrary gaps) scan (render sh) = events sh (level B), composed into match/outward/inward theorems on "
+             "TEXT. Generated stylesheets are read back as grammar sheets and compared with model and implementation. One known "
+             "finding (delimiters inside parentheses), refuted on the model and excluded from the grammar.",
         technique="Coq proof by induction over rule trees (events fold with selector stack invariant) + model/implementation correspondence on generated stylesheets with ground truth",
         ref="DESIGN.md §5 C10"),
     'C11': dict(
@@ -67,6 +95,14 @@ CHECKS = {
              "Float rounding/range is outside the model (three listed float-range findings).",
         technique="Coq proof (shunting-yard invariant by induction over expression trees, stack-machine evaluation over Q) + generated priority tables + exhaustive token-sequence correspondence",
         ref="DESIGN.md §5 C19"),
+    'C20': dict(
+        text="Coq theorems: layer order regenerated from the AST of config.merged_data equals the documented order; merged_lookup for all "
+             "layer contents (most specific defining layer wins), untouched layers, unknown syntax fall-back, Config.__init__ slots; "
+             "complete sweep of all 2^6 layer subsets x every syntax name x {options, snippets, variables} over the generated tables; "
+             "purity on a heap model with explicit aliasing. Exhaustive implementation table (evidence exhaustive: true) observed on "
+             "Config(...) and through expand() output.",
+        technique="Coq proof over association-list layers + fail-closed AST translation of merged_data/Config.__init__ + complete finite sweep over generated tables + exhaustive implementation table",
+        ref="DESIGN.md §5 C20"),
 }
 
 PENDING_REASON = "not claimed yet: model/theorems for this property are not built at this commit (see DESIGN.md §8 build order)"
